@@ -534,6 +534,10 @@ func directed(k int, out *bufio.Writer) {
 		e.close()
 		out.Flush()
 	}()
+	if k == lateOwnerScenario {
+		lateOwner(e, A, B, a1, b1)
+		return
+	}
 	if k >= pendingSharedFirst {
 		pendingShared(e, A, B, a1, b1, k-pendingSharedFirst)
 		return
@@ -976,7 +980,43 @@ func envOr(k, d string) string {
 const (
 	pendingSharedFirst = 100
 	pendingSharedCount = 4
+	lateOwnerScenario  = 200
 )
+
+// lateOwner (probe, property C09 seen from the removal / restore side): B is removed; a transaction T in which B pays A
+// (funded by one of B's coins, change to B) arrives unconfirmed — relevant through A's output, B's coin is a stranger's
+// now; B is restored from its mnemonic while T is still pending. T is known, unconfirmed and relevant to a wallet: the
+// coin of B it spends must be reported spent_by_unmined and must not be offered to transaction building.
+func lateOwner(e *env, A, B *hist.WInfo, a1, b1 *hist.AddrInfo) {
+	h, d := e.h, e.d
+	c := e.pick(b1.Sh)
+	t := hist.PayTx(c, []sim.Out{{Script: h.ScriptStd(b1), Value: 1}, {Script: h.ScriptStd(a1), Value: 200}})
+	mn, pass := B.Mnemo, B.Pass
+	e.plainRemove(B)
+	h.RetireWallet(B)
+	rel, err := h.W.H.VerifReceiveTx(t)
+	if err != nil || !rel {
+		panic(fmt.Sprintf("pending transaction not accepted: relevant=%v err=%v", rel, err))
+	}
+	d.G.Arm()
+	wi, err := h.ImportMnemonic(B.Num, mn, pass, d.Pass(pass))
+	must(err)
+	st, ok := d.RunImport(wi, nil, stepTimeout)
+	h.IEmit("C import-ended %s %v", st, ok)
+	d.Settle()
+	h.AdoptWallet(wi)
+	o := h.W.Observe(wi.ID)
+	found, flagged := false, false
+	for _, u := range o.Utxos {
+		if u.TxID == c.Op.Hash.String() && u.Vout == c.Op.Index {
+			found, flagged = true, u.SpentUnmined
+		}
+	}
+	h.IEmit("C lateowner coin-listed=%v flagged=%v", found, flagged)
+	if found && !flagged {
+		h.IEmit("V unflagged:wallet-restored-while-pending wallet %d restored while a known unconfirmed transaction spends its coin: the coin is listed without spent_by_unmined", wi.Num)
+	}
+}
 
 // pendingShared: a PENDING transaction T touches both the wallet that is removed (B) and the survivor (A):
 //
